@@ -39,7 +39,7 @@ def scenarios(prop, quick, seed):
             outs = outs + ["panic"]
         sc = {"getters": 1 + j % 3, "bulk": (j // 3) % 2, "refreshers": refreshers, "writers": kinds[j % len(kinds)],
               "preload": (j // 4) % 2 if refresh else 0, "outcomes": outs, "policy": "random" if j % 2 else "pct",
-              "seed": seed * 100000 + j, "script": [], "refresh": refresh}
+              "seed": seed * 100000 + j, "script": [], "refresh": refresh, "bulkkeys": 2}
         fam = j % 8
         if fam in (1, 5):      # waiters joined to a failing / not-found / panicking bulk or single load
             sc.update(getters=2 + j % 2, bulk=1 if fam == 1 else 0, refreshers=0, refresh=0, preload=0, writers=[],
@@ -47,6 +47,9 @@ def scenarios(prop, quick, seed):
         elif fam == 3:         # two refreshes of a present entry with a writer that may be a no-op
             sc.update(getters=j % 2, bulk=0, refreshers=2, refresh=1, preload=1, outcomes=[["val"], ["val", "err"], ["nf", "val"]][(j // 8) % 3],
                       writers=[["setifabsent"], ["set"], [], ["invalidate"], ["compute"]][(j // 8) % 5])
+        elif fam == 7:         # BulkGet callers whose missing keys are all in flight elsewhere (they must wait for the joined loads)
+            sc.update(getters=1 + j % 2, bulk=2, bulkkeys=1 + (j // 8) % 2, refreshers=0, refresh=0, preload=0, writers=[],
+                      outcomes=[["val"], ["val", "nf"], ["val", "err"]][(j // 16) % 3])
         out.append(sc)
     return out
 
